@@ -687,3 +687,98 @@ def r10_accessor_presence(ck, P):
             ck.ok(R, where, 'either accessor selects the accessor side')
     if len(sites) < 3:
         ck.incomplete(R, 'expected at least three accessor-presence decisions, found %s' % [f.name for f, *_ in sites])
+
+
+def r11_yuy2_siblings(ck, P):
+    """sibling agreement: which bytes of a YUY2 row are Y, U and V of pixel p"""
+    import sympy
+    R = ck.rule('C10-R11', 'the scanline reader and the single-pixel reader of yuy2 take the luma of pixel p from row byte 2p and its chroma from bytes (2p & -4) + 1 and (2p & -4) + 3 of the same row: the byte offsets of the three reads are the same symbolic function of p in both readers (p = x + i in the scanline reader)', floor=6)
+    A4 = sympy.Function('and')
+    found = {}
+    for un in ('pixman-access.c', 'pixman-access-accessors.c'):
+        u = P.units.get(un)
+        if u is None:
+            continue
+        for fn in ('fetch_scanline_yuy2', 'fetch_pixel_yuy2'):
+            f = u.functions.get(fn)
+            if f is None:
+                ck.incomplete(R, '%s not found in %s' % (fn, un)); continue
+            ck.saw(f)
+            syms = {}
+
+            def ev(o, d=0):
+                if d > 30:
+                    return None
+                if o[0] == 'c':
+                    return sympy.Integer(int(o[1]))
+                if o[0] == 'a':
+                    return syms.setdefault(('a', o[1]), sympy.Symbol(f.params[o[1]][0] or 'arg%d' % o[1]))
+                if o[0] != 'v':
+                    return None
+                x = f.by_id[o[1]]
+                if x.op in ('sext', 'zext', 'trunc', 'freeze'):
+                    return ev(x.a[0], d + 1)
+                if x.op in ('add', 'sub', 'mul'):
+                    a, b = ev(x.a[0], d + 1), ev(x.a[1], d + 1)
+                    return None if a is None or b is None else sympy.expand({'add': a + b, 'sub': a - b, 'mul': a * b}[x.op])
+                if x.op == 'shl' and x.a[1][0] == 'c':
+                    a = ev(x.a[0], d + 1)
+                    return None if a is None else sympy.expand(a * 2 ** int(x.a[1][1]))
+                if x.op == 'and' and any(q[0] == 'c' for q in x.a):
+                    k = [int(q[1]) for q in x.a if q[0] == 'c'][0]
+                    a = ev([q for q in x.a if q[0] != 'c'][0], d + 1)
+                    return None if a is None else A4(a, k)
+                if x.op == 'phi':
+                    return syms.setdefault(('v', x.i), sympy.Symbol(x.dv or 'v%d' % x.i))
+                return syms.setdefault(('v', x.i), sympy.Symbol('t%d' % x.i))
+
+            def ptr(o, d=0):
+                """byte offset from the row start of a pointer derived from the row pointer; None if it is not"""
+                x = f.v(o)
+                if x is None or d > 12:
+                    return None
+                if x.op == 'bitcast':
+                    return ptr(x.a[0], d + 1)
+                if x.op == 'getelementptr':
+                    base = ptr(x.a[0], d + 1)
+                    idx = [st for st in x.d.get('path') or [] if st[0] in ('p', 'x')]
+                    if len(idx) != 1:
+                        return None
+                    i = ev(idx[0][1]); sz = idx[0][2]
+                    if i is None:
+                        return None
+                    if base is None:
+                        # the row pointer itself: bits + rowstride * line (element size 4); everything above it counts from the row start
+                        return ('row', sympy.Integer(0)) if sz == 4 else None
+                    return (base[0], sympy.expand(base[1] + i * sz))
+                return None
+
+            offs = []
+            for x in f.insts():
+                if x.op == 'load' and x.ty == 'i8':
+                    p = ptr(x.a[0])
+                    if p is not None:
+                        offs.append(p[1])
+                elif x.op == 'call' and x.callee is None and x.a and len(x.a) == 2 and x.a[1][0] == 'c' and int(x.a[1][1]) == 1:
+                    p = ptr(x.a[0])          # image->read_func (ptr, 1) in the accessor build
+                    if p is not None:
+                        offs.append(p[1])
+            found[(un, fn)] = offs
+    for un in ('pixman-access.c', 'pixman-access-accessors.c'):
+        sc, px = found.get((un, 'fetch_scanline_yuy2')), found.get((un, 'fetch_pixel_yuy2'))
+        if not sc or not px or len(sc) != 3 or len(px) != 3:
+            ck.incomplete(R, '%s: expected three byte reads in each yuy2 reader, found %s / %s' % (un, len(sc or []), len(px or []))); continue
+        p_ = sympy.Symbol('p')
+        for k, nm in enumerate(('Y', 'U', 'V')):
+            a = sc[k]; b = px[k]
+            xs = sympy.Symbol('x'); is_ = [s_ for s_ in a.free_symbols if str(s_) == 'i']
+            a_n = a.subs({xs: p_ - (is_[0] if is_ else 0)}) if is_ else a
+            a_n = sympy.expand(a_n.subs({s_: p_ - xs for s_ in is_})) if is_ else a_n
+            # normalise: scanline offsets are functions of x + i; pixel offsets of `offset`
+            a_p = sympy.expand(a.subs({is_[0]: p_ - xs})) if is_ else a
+            b_p = sympy.expand(b.subs({s_: p_ for s_ in b.free_symbols if str(s_) == 'offset'}))
+            a_p = sympy.simplify(a_p); b_p = sympy.simplify(b_p)
+            if sympy.simplify(a_p - b_p) == 0:
+                ck.ok(R, '%s: %s of pixel p read at row byte %s in both readers' % (un, nm, b_p))
+            else:
+                ck.violation(R, 'fetch_scanline_yuy2', '%s byte of a pixel (%s)' % (nm, un), 'the yuy2 scanline reader takes %s of pixel p = x + i from row byte %s, the single-pixel reader from %s: for some starting x the scanline reader pairs a luma sample with the chroma of the neighbouring macropixel (U and V swapped)' % (nm, a_p, b_p), un)
